@@ -762,6 +762,30 @@ def channel_assert(ctx, j, exprs, meta):
         meta.append(('assert', j, key, real, rep))
 
 
+# ------------------------------------------------------------------ directed: sanitiser prefix as a wire name
+def directed_prefix_names(ctx, exprs, meta):
+    """a wire that is literally named like a sanitised identifier, next to names that need sanitising"""
+    for k, (bad, plain) in enumerate([('a.b', '_vcd_tmp_0'), ('x[1]', '_vcd_tmp_1'), ('q-r', '_fastsim_tmp_0')]):
+        pyrtl.reset_working_block()
+        a = pyrtl.Input(4, bad)
+        z = pyrtl.Input(3, 'z%d' % k)
+        o = pyrtl.Output(4, plain)
+        o <<= ~a
+        o2 = pyrtl.Output(4, 'o.%d' % k)
+        o2 <<= a + z
+        c = Case()
+        c.i, c.block, c.ncyc = 'directed%d' % k, pyrtl.working_block(), 3
+        c.regmap, c.memmap, c.track_all, c.odd = {}, {}, False, [bad]
+        c.inputs = [{bad: 3, 'z%d' % k: 1}, {bad: 12, 'z%d' % k: 7}, {bad: 0, 'z%d' % k: 2}]
+        for key, cls, guard in SIMS:
+            try:
+                sim, tracer = channel_inspect(ctx, c, key, cls)
+                channel_text(ctx, c, key, cls, tracer, False, exprs, meta)
+            except Exception as e:
+                ctx.spec_violation('simulator-failed:%s' % key, '%s failed on a design with wires named %r and %r: %r'
+                                   % (cls, bad, plain, e), {'names': [bad, plain], 'simulator': cls})
+
+
 # ------------------------------------------------------------------ main
 def run(ctx):
     ndesigns = 36 if ctx.tier == 'quick' else 450
@@ -811,6 +835,7 @@ def run(ctx):
             channel_illegal(ctx, c, key, cls, sim, tracer, guard_pairs)
     for j in range(nassert):
         channel_assert(ctx, j, exprs, meta)
+    directed_prefix_names(ctx, exprs, meta)
 
     # translated guards vs behaviour vs specification on every tried (value, width)
     gp_index = {}
